@@ -191,13 +191,18 @@ Section SevenZip.
 
   (* _process_7z_files_sequential (repaired): path through _safe_join, isfile, open rb *)
   Variable isfile : str -> bool.            (* the file system after extractall *)
+  Variable dsize : str -> Z.                (* os.path.getsize: size of what is on disk now, whatever wrote it *)
   Fixpoint read_back (fs : list finfo) : list ev :=
     match fs with
     | [] => []
     | f :: r =>
         match safe_join cwd base (f_name f) with
         | None => read_back r                                       (* Bad7zFile caught, continue *)
-        | Some p => if isfile p then Probe p :: OpenR p :: read_back r else Probe p :: read_back r
+        | Some p =>
+            if isfile p then
+              if max_mem <? dsize p then Probe p :: read_back r     (* too large on disk: skipped, never opened *)
+              else Probe p :: OpenR p :: read_back r
+            else Probe p :: read_back r
         end
     end.
 
@@ -220,11 +225,11 @@ Definition reads (es : list ev) : list str :=
 
 Section Run7z.
   Variables (cwd base : str) (dec : nat -> option Z) (okd okw : str -> bool)
-            (skip : str -> bool) (max_mem : Z) (host : list str).
+            (skip : str -> bool) (max_mem : Z) (host : list str) (dsize : str -> Z).
   Definition run_7z (h : hdr) : list ev :=
     let '(es, ok) := extractall cwd base dec okd okw h in
     if ok then
-      es ++ read_back cwd base (fun p => mem_str p (writes es) || mem_str p host) (to_process skip max_mem h)
+      es ++ read_back cwd base max_mem (fun p => mem_str p (writes es) || mem_str p host) dsize (to_process skip max_mem h)
     else es.                                   (* ExtractionFailedError before any read *)
   Definition run_7z_orig (h : hdr) : list ev :=
     let '(es, ok) := extractall cwd base dec okd okw h in
